@@ -116,6 +116,11 @@ check("C26", "Hypothesis property test (python3-vt) of the runtime classes again
       "The promised-class table is the one in the property statement, not derived from the .d.er declarations; cross-kind mutable combinations (IntMut with Float, wrapper with a mutable right operand) are outside the generated domain.",
       "DESIGN.md §3 C26", engine="pyhyp")
 
+check("C25", "Hypothesis (Python server) and proptest (Rust client, through the verif hook) round-trip tests of the REPL message framing over chunked streams",
+      "Sequences of 1-5 messages with payloads of 0-200 000 bytes (incl. 65534/65535/65536 and multi-byte text) are framed and read back: on the server side through the MessageStream class extracted from the working tree's repl_server.py over a fake socket whose recv/send transfer generated chunk sizes (down to 1 byte), on the client side through MessageStream::send_msg / recv_msg (hook erg::verif_framing) over a reader with generated chunk sizes; every message must be decoded exactly as sent and written exactly in the frame format.",
+      "End-to-end histories through DummyVM (the part of the statement about inputs receiving their own results) are not driven: its error paths call process::exit and each session needs a Python subprocess; only the framing layer on both sides is checked.",
+      "DESIGN.md §3 C25", engine="pyhyp")
+
 NOT_APPLICABLE = {}
 
 def main():
